@@ -29,6 +29,15 @@ Proof.
   - intros H. destruct (ostr_eqb a b) eqn:E; [|reflexivity]. apply ostr_eqb_eq in E. contradiction.
 Qed.
 
+(* case analysis on every string comparison left in the goal; keeps the proofs about the TRANSLATED ev1_identity independent
+   of the order / nesting in which the source performs its tests *)
+Ltac split_eqb :=
+  repeat match goal with
+  | |- context [list_eqb ?a ?b] =>
+      let E := fresh "E" in destruct (list_eqb a b) eqn:E; [apply list_eqb_eq in E|apply list_eqb_false in E];
+      cbn [negb andb orb]
+  end.
+
 Section IdentityProofs.
 Variable cert : Type.
 Variable tubid_of : cert -> id.
@@ -48,19 +57,11 @@ Lemma ev1_sound ic target c claimed r :
   exists crt t, c = Some crt /\ tubid_of crt = t /\ claimed = Some t /\ r = Some t /\ t <> [] /\
                 (ic = true -> t = target).
 Proof.
-  unfold ev1_identity.
-  destruct c as [crt|].
-  - cbv zeta.
-    destruct (ostr_eqb (Some (tubid_of crt)) claimed) eqn:E; cbn [negb]; [|intros H; discriminate H].
-    apply ostr_eqb_eq in E. subst claimed.
-    destruct (tubid_of crt) as [|x t] eqn:Et; cbn [ostr_truthy]; [intros H; discriminate H|].
-    destruct ic.
-    + destruct (ostr_eqb (Some (x :: t)) (Some target)) eqn:E2; cbn [negb]; [|intros H; discriminate H].
-      apply ostr_eqb_eq in E2. inversion E2; subst target. intros H; inversion H; subst r.
-      exists crt, (x :: t). repeat split; try assumption; try reflexivity; discriminate.
-    + intros H; inversion H; subst r.
-      exists crt, (x :: t). repeat split; try assumption; try reflexivity; try discriminate.
-  - destruct claimed as [t|]; cbn [opt_is_some ostr_truthy]; intros H; discriminate H.
+  unfold ev1_identity, ostr_eqb, ostr_truthy, opt_is_some, opt_is_none.
+  destruct c as [crt|], claimed as [[|x t]|], ic; cbv zeta; cbn [negb andb orb]; split_eqb;
+    intros H; try discriminate H; inversion H; subst; clear H;
+    exists crt, (x :: t); (split; [reflexivity|split; [congruence|split; [reflexivity|split; [reflexivity|split; [discriminate|]]]]]);
+    first [intros _; congruence | discriminate].
 Qed.
 
 (* completeness: when all of that holds the checks pass *)
@@ -68,20 +69,23 @@ Lemma ev1_complete ic target crt :
   tubid_of crt <> [] -> (ic = true -> tubid_of crt = target) ->
   ev1 ic target (Some crt) (Some (tubid_of crt)) = Ok (Some (tubid_of crt)).
 Proof.
-  intros Hne Ht. unfold ev1_identity. cbv zeta.
-  assert (E : ostr_eqb (Some (tubid_of crt)) (Some (tubid_of crt)) = true) by (apply ostr_eqb_eq; reflexivity).
-  rewrite E. cbn [negb].
-  destruct (tubid_of crt) as [|x t] eqn:Et; [contradiction Hne; reflexivity|]. cbn [ostr_truthy].
-  destruct ic; [|reflexivity].
-  rewrite <- (Ht eq_refl).
-  assert (E2 : ostr_eqb (Some (x :: t)) (Some (x :: t)) = true) by (apply ostr_eqb_eq; reflexivity).
-  rewrite E2. reflexivity.
+  intros Hne Ht.
+  unfold ev1_identity, ostr_eqb, ostr_truthy, opt_is_some, opt_is_none. cbv zeta.
+  destruct (tubid_of crt) as [|x t] eqn:Et; [contradiction Hne; reflexivity|].
+  destruct ic; cbn [negb andb orb]; split_eqb; try reflexivity; try congruence;
+    try (specialize (Ht eq_refl)); congruence.
 Qed.
 
 Lemma ev1_never_anonymous ic target c claimed : ev1 ic target c claimed <> Ok None.
 Proof.
   intros H. apply ev1_sound in H. destruct H as (crt & t & _ & _ & _ & H & _). discriminate.
 Qed.
+
+(* the two facts about the translated attach_key that the rest relies on *)
+Lemma ak_client tgt : attach_key true tgt tgt = tgt.
+Proof. reflexivity. Qed.
+Lemma ak_server x t : attach_key false x t = t.
+Proof. reflexivity. Qed.
 
 (* ------------------------------------------------------------------ one end *)
 
@@ -106,9 +110,9 @@ Theorem attach_key_proven r me tgt c claimed t m :
               (r = Client -> attach_key (is_client r) tgt t = tgt).
 Proof.
   intros H. apply evaluate_bound in H. destruct H as (crt & Hc & Hh & _ & Htgt & _ & _).
-  exists crt. unfold attach_key. destruct r; cbn [is_client].
-  - rewrite <- (Htgt eq_refl). auto.
-  - split; [assumption|split; [assumption|discriminate]].
+  exists crt. destruct r; cbn [is_client].
+  - specialize (Htgt eq_refl). subst tgt. rewrite ak_client. auto.
+  - rewrite ak_server. split; [assumption|split; [assumption|discriminate]].
 Qed.
 
 Definition mismatch (r : role) (tgt : id) (c : option cert) (claimed : option id) : Prop :=
@@ -194,26 +198,27 @@ Proof.
   destruct (evaluate Server (srv_id s) [] (cert_s s) (claim_s s)) as [ws|ts ms] eqn:ES.
   - inversion H; subst. split; [|split; [|split]]; intros k Hk; discriminate.
   - apply evaluate_bound in ES. destruct ES as (crt & Hc & Hh & Hcl & _ & _ & _).
+    rewrite ak_server in H.
     destruct ms; inversion H; subst oc os; (split; [intros k Hk; discriminate|]);
       (split; [|split; intros k Hk; discriminate]); intros k Hk; try discriminate.
-    cbn [ever obs_transient attach_key] in Hk. inversion Hk; subst k.
+    cbn [ever obs_transient] in Hk. inversion Hk; subst k.
     split; [exists crt; auto|auto].
   - apply evaluate_bound in EC. destruct EC as (crt & Hc & Hh & Hcl & Htgt & _ & _).
-    specialize (Htgt eq_refl).
+    specialize (Htgt eq_refl). rewrite Htgt in H, Hh, Hcl. rewrite ak_client in H.
     destruct mc; inversion H; subst oc os; (split; [|split; [intros k Hk; discriminate|split; intros k Hk; discriminate]]);
       intros k Hk; try discriminate.
-    cbn [ever obs_transient attach_key] in Hk. inversion Hk; subst k.
-    split; [reflexivity|]. rewrite <- Htgt. split; [exists crt; auto|auto].
+    cbn [ever obs_transient] in Hk. inversion Hk; subst k.
+    split; [reflexivity|]. split; [exists crt; auto|auto].
   - apply evaluate_bound in EC. destruct EC as (crtc & Hcc & Hhc & Hclc & Htgt & _ & _). specialize (Htgt eq_refl).
     apply evaluate_bound in ES. destruct ES as (crts & Hcs & Hhs & Hcls & _ & _ & _).
-    assert (PC : forall k, Some (attach_key true (dialled s) tc) = Some k ->
+    rewrite Htgt in H, Hhc, Hclc. rewrite ak_client, ak_server in H.
+    assert (PC : forall k, Some (dialled s) = Some k ->
                  k = dialled s /\ proven (cert_c s) k /\ claim_c s = Some k /\ requested s = srv_id s).
-    { intros k Hk. cbn [attach_key] in Hk. inversion Hk; subst k. split; [reflexivity|].
-      rewrite <- Htgt. split; [exists crtc; auto|auto]. }
-    assert (PS : forall k, Some (attach_key false [] ts) = Some k ->
+    { intros k Hk. inversion Hk; subst k. split; [reflexivity|]. split; [exists crtc; auto|auto]. }
+    assert (PS : forall k, Some ts = Some k ->
                  proven (cert_s s) k /\ claim_s s = Some k /\ requested s = srv_id s).
-    { intros k Hk. cbn [attach_key] in Hk. inversion Hk; subst k. split; [exists crts; auto|auto]. }
-    destruct mc, ms; try destruct (inbound_url_check (attach_key true (dialled s) tc) (srv_id s)) as [[]|w];
+    { intros k Hk. inversion Hk; subst k. split; [exists crts; auto|auto]. }
+    destruct mc, ms; try destruct (inbound_url_check (dialled s) (srv_id s)) as [[]|w];
       inversion H; subst oc os; cbn [ever final obs_transient obs_connected obs_failed];
       (split; [first [exact PC | intros k Hk; discriminate]|]);
       (split; [first [exact PS | intros k Hk; discriminate]|]);
@@ -274,12 +279,12 @@ Proof.
   assert (ES : evaluate Server (srv_id s) [] (Some ca) (Some (cl_id s))
                = Accept (cl_id s) (i_am_master (srv_id s) (cl_id s))).
   { rewrite <- Hha. apply consistent_accepts; [rewrite Hha; assumption|discriminate]. }
-  rewrite EL, Hcc, Hclc, Hcs, Hcls, EC, ES. cbn [attach_key].
+  rewrite EL, Hcc, Hclc, Hcs, Hcls, EC, ES. rewrite Hd, ak_client, ak_server.
   assert (Hmc : master_cmp = CmpGt) by reflexivity.
   rewrite (master_flip (srv_id s) (cl_id s) Hmc (fun e => Hne (eq_sym e))).
   assert (EU : inbound_url_check (dialled s) (srv_id s) = Ok tt).
   { unfold inbound_url_check. rewrite Hd, list_eqb_refl. reflexivity. }
-  rewrite EU, Hd.
+  rewrite Hd in EU. rewrite EU.
   destruct (i_am_master (cl_id s) (srv_id s)); reflexivity.
 Qed.
 
